@@ -101,8 +101,9 @@ type System struct {
 	Procs  []*Proc
 	Oracle Oracle
 	Consts []distsys.MPCalContextConfigFn
-	// GlobalOrder lists the spec's global variable names in dump order (W.Names by default)
-	Steps int
+	// Observe, if set, extracts client-visible events from a committed step (gate-based runs)
+	Observe func(p *Proc, label, newPC string, local func(res string) tla.Value) interface{}
+	Steps   int
 }
 
 // gate implements distsys.FairnessCounter for one process.
